@@ -54,11 +54,11 @@ class LazyVar:
                 if ex.choose([(1, pv == 1), (0, pv == 0)]): mp.d[k] = Cell(Ptr(Cell(sym_variable(ex, spec, depth - 1)), 'rc'))
             me.fields = [Cell(mp)]
 
-def sym_number(ex, nums):
+def sym_number(ex, nums, kinds=('pos', 'neg', 'float')):
     if nums is not None:
         nv = ex.fresh('num', 8); k = ex.choose([(i, nv == i) for i in range(len(nums))])
         return py_number(nums[k])
-    kv = ex.fresh('nk', 8); kind = ex.choose([(kk, kv == i) for i, kk in enumerate(['pos', 'neg', 'float'])])
+    kv = ex.fresh('nk', 8); kind = ex.choose([(kk, kv == i) for i, kk in enumerate(list(kinds))])
     if kind == 'pos': return NumberV('pos', Int(ex.fresh('u', 64), 'u64'))
     if kind == 'neg':
         x = ex.fresh('i', 64); ex.assume(x < 0); return NumberV('neg', Int(x, 'i64'))
